@@ -256,7 +256,7 @@ class Ctx:
         self.violations.append(Violation(key, what, data))
 
     def broke(self, kind: str, name: str, detail: str = ""):
-        self.broken.append({"kind": kind, "name": name, "detail": detail[:500]})
+        self.broken.append({"kind": kind, "name": name, "detail": detail})
 
     def lean(self):
         if self.driver is None:
@@ -271,6 +271,43 @@ class Ctx:
         if self.driver is not None:
             self.driver.close()
         shutil.rmtree(self.tmp, ignore_errors=True)
+
+
+class CaseTimeout(BaseException):
+    pass
+
+
+class time_limit:
+    """wall-clock limit for one case (sympy's simplify / limit and mpmath powers can take forever).
+    On expiry the Lean driver is restarted, because a request may be in flight."""
+
+    def __init__(self, ctx: "Ctx", seconds: int):
+        self.ctx = ctx
+        self.seconds = seconds
+
+    def _handler(self, signum, frame):
+        raise CaseTimeout()
+
+    def __enter__(self):
+        import signal
+        self.old = signal.signal(signal.SIGALRM, self._handler)
+        signal.setitimer(signal.ITIMER_REAL, self.seconds, 0.5)  # re-fires until it gets through
+        return self
+
+    def __exit__(self, et, ev, tb):
+        import signal
+        signal.setitimer(signal.ITIMER_REAL, 0)
+        signal.signal(signal.SIGALRM, self.old)
+        if et is CaseTimeout:
+            self.ctx.count("case_timeouts")
+            if self.ctx.driver is not None:
+                try:
+                    self.ctx.driver.p.kill()
+                except Exception:
+                    pass
+                self.ctx.driver = None
+            return True
+        return False
 
 
 def load_known():
